@@ -2,6 +2,7 @@ package ast
 
 import (
 	"fmt"
+	"math"
 	"sort"
 
 	rast "github.com/risor-io/risor/ast"
@@ -153,7 +154,11 @@ func exprOfNode(n rast.Node) N {
 	case *rast.Int:
 		return Int(int(e.Value()))
 	case *rast.Float:
-		return N{"k": "float", "text": e.Literal()}
+		out := N{"k": "float", "text": e.Literal()}
+		if v := e.Value() * 8; v == math.Trunc(v) && v >= 0 && v <= 32768 {
+			out["n8"] = int(v)
+		}
+		return out
 	case *rast.Bool:
 		return Bool(e.Value())
 	case *rast.Nil:
